@@ -53,7 +53,7 @@ func c20(r *Report) propMeta {
 		{Op: "EQL", A: []string{"field:ValidatorPrice.SignalPriceStatus"}, B: []string{w.ConstAtom(ft, "SIGNAL_PRICE_STATUS_UNSPECIFIED")}, Want: true, Desc: "no previous price"},
 		{Op: "LSS", A: []string{"call:Time.Unix", "call:Context.BlockTime"}, B: []string{"^binop:+", "field:ValidatorPrice.Timestamp", "field:Params.CooldownTime"}, Want: false, Desc: "not (blockTime < latest.Timestamp + CooldownTime)"}}, 1)
 	su2 := sg + "shouldUpdatePrice"
-	tooEarly := Cond{Op: "LSS", A: []string{"^param:now"}, B: []string{"^call:time.Unix", "binop:+", "field:ValidatorPrice.Timestamp", "field:Params.CooldownTime", "const:" + trimConst(w.ConstAtom("grogu/signaller", "TimeBuffer"))}, Want: false, Desc: "not now.Before(old.Timestamp + CooldownTime + TimeBuffer)"}
+	tooEarly := Cond{Op: "LSS", A: []string{"^param:now"}, B: []string{"^call:time.Unix", "binop:+", "binops=+", "field:ValidatorPrice.Timestamp", "field:Params.CooldownTime", "const:" + trimConst(w.ConstAtom("grogu/signaller", "TimeBuffer"))}, Want: false, Desc: "not now.Before(old.Timestamp + CooldownTime + TimeBuffer)"}
 	r.Gate("daemon-cooldown-at-least-as-late", su2, RetConst(0, "true"), []Cond{tooEarly}, GateOpts{MinSites: 2})
 	r.Gate("daemon-cooldown-at-least-as-late-deviation", su2, RetValEff(0, "^call:signaller.isDeviated"), []Cond{tooEarly}, GateOpts{})
 	r.ConstNonNegative("time-buffer-non-negative", "grogu/signaller", "TimeBuffer")
@@ -71,7 +71,7 @@ func c20(r *Report) propMeta {
 	nu := sg + "isNonUrgentUnavailablePrices"
 	r.Gate("unavailable-held-until-near-deadline", nu, RetConst(0, "true"), []Cond{
 		{Op: "EQL", A: []string{"field:SignalPrice.Status"}, B: []string{w.ConstAtom(ft, "SIGNAL_PRICE_STATUS_UNAVAILABLE")}, Want: true, Desc: "status == UNAVAILABLE"},
-		{Op: "LSS", A: []string{"binop:-", "field:ValidatorPrice.Timestamp", "field:FeedWithDeviation.Interval"}, B: []string{"^param:now"}, Want: false, Desc: "not (now > deadline - FixedIntervalOffset)"}}, GateOpts{})
+		{Op: "LSS", A: []string{"^binop:-", "binops=+,-", "field:ValidatorPrice.Timestamp", "field:FeedWithDeviation.Interval"}, B: []string{"^param:now"}, Want: false, Desc: "not (now > deadline - FixedIntervalOffset)"}}, GateOpts{})
 
 	r.Rule("C20.R6", "E9 assigned-time formula and CLI defaults")
 	ca := "grogu/signaller.calculateAssignedTime"
